@@ -69,7 +69,8 @@ EXPECT_PROBES = ("forbidden_requested_metabolize", "forbidden_requested_call", "
                  "refused_metabolize", "allowed_tool_ran", "reregistered_flip_requested", "empty_ceiling_request",
                  "ros_latched", "unknown_tool_requested", "caps_attr_tool_requested", "list_declared_tool_requested",
                  "partial_overlap_requested", "llm_forever", "threads_run", "registered_while_request_in_flight",
-                 "threads_forbidden_body_refused_after_swap")
+                 "threads_forbidden_body_refused_after_swap", "two_engines_one_nucleus", "nucleus_switched_engine",
+                 "nucleus_switched_to_stricter_engine")
 
 CAPS = ["read_fs", "write_fs", "net", "exec_code", "money", "email_send", "gpu"]   # "gpu": a foreign (string) tag
 _ENUM = {c.value: c for c in Capability}
@@ -171,6 +172,16 @@ def gen(rng, tier, i):
                "few": sorted(rng.sample(CAPS, rng.randint(2, 3))),
                "most": sorted(rng.sample(CAPS, 6))}[kind]
     cfg = {"allowed": allowed, "max_ros": rng.choice([1.0, 1.0, 0.3, 0.2])}
+    two = allowed is not None and rng.random() < 0.35
+    if two:
+        # a second engine built from the same toolbox; mostly stricter than the first (so that what the first allows the
+        # second forbids), sometimes the other way round, sometimes unrelated
+        how = weighted(rng, [(4, "subset"), (2, "empty"), (1.5, "wider"), (1, "none"), (1.5, "other")])
+        cfg["engines"] = 2
+        cfg["allowed2"] = {"subset": sorted(rng.sample(allowed, rng.randint(0, max(0, len(allowed) - 1)))),
+                           "empty": [], "none": None,
+                           "wider": sorted(set(allowed) | set(rng.sample(CAPS, 2))),
+                           "other": sorted(rng.sample(CAPS, rng.randint(1, 3)))}[how]
     g_allowed = allowed
     g_tools = {}                       # name -> forbidden? (generator's own bookkeeping, only for bias)
 
@@ -198,8 +209,16 @@ def gen(rng, tier, i):
             return GHOST
         return rng.choice(names)
 
+    eng = [0]
+
+    def which():
+        if not two:
+            return []
+        eng[0] = (1 - eng[0]) if rng.random() < 0.6 else eng[0]      # keep switching engines on the one nucleus
+        return [eng[0]]
+
     while len(ops) < depth:
-        o = weighted(rng, [(4, "met"), (3, "call"), (2.6, "llm"), (0.5, "llm_mock"), (1.6, "reg"),
+        o = weighted(rng, [(4, "met"), (3, "call"), (4.5 if two else 2.6, "llm"), (0.5, "llm_mock"), (1.6, "reg"),
                            (0.25, "allow"), (0.45, "repair")])
         if o == "met":
             n = pick_name()
@@ -208,9 +227,9 @@ def gen(rng, tier, i):
                                   (0.4, "orelse")])
             other = rng.choice([x for x in names if x != n] or names)
             ops.append(["met", form, n, other, weighted(rng, [(5, None), (3, "tool"), (0.7, "math"), (0.5, "logic"),
-                                                              (0.4, "transform")])])
+                                                              (0.4, "transform")])] + which())
         elif o == "call":
-            ops.append(["call", pick_name(), rng.choice(["none", "kw", "kw"])])
+            ops.append(["call", pick_name(), rng.choice(["none", "kw", "kw"])] + which())
         elif o == "llm":
             rounds = []
             for _ in range(rng.randint(1, 3)):
@@ -222,7 +241,7 @@ def gen(rng, tier, i):
                 else:
                     rounds.append([pick_name() for _ in range(weighted(rng, [(5, 1), (3, 2), (1, 3)]))])
             ops.append(["llm", rounds, weighted(rng, [(2, "final"), (3, "repeat")]),
-                        rng.choice([0, 1, 2, 2, 3, 4, 10]), rng.random() < 0.92])
+                        rng.choice([0, 1, 2, 2, 3, 4, 10]), rng.random() < 0.92] + which())
         elif o == "llm_mock":
             ops.append(["llm_mock", pick_name(), rng.choice([1, 2, 3])])
         elif o == "reg":
@@ -274,6 +293,12 @@ def simplify(plan):
     if cfg["allowed"]:
         for j in range(len(cfg["allowed"])):
             yield {**plan, "config": {**cfg, "allowed": cfg["allowed"][:j] + cfg["allowed"][j + 1:]}}
+    if cfg.get("engines", 1) == 2:
+        if cfg.get("allowed2"):
+            for j in range(len(cfg["allowed2"])):
+                yield {**plan, "config": {**cfg, "allowed2": cfg["allowed2"][:j] + cfg["allowed2"][j + 1:]}}
+        if all(len(o) <= {"met": 5, "call": 3, "llm": 5}.get(o[0], 99) or o[-1] == 0 for o in plan.get("ops", [])):
+            yield {**plan, "config": {k2: v for k2, v in cfg.items() if k2 not in ("engines", "allowed2")}}
     if "tasks" in plan and len(plan["tasks"]) > 2 and not plan["tasks"][-1]:
         yield {**plan, "tasks": plan["tasks"][:-1]}
 
@@ -301,27 +326,31 @@ def simplify(plan):
     for path, lst in _op_lists(plan):
         for j, o in enumerate(lst):
             cands = []
+            base = {"met": 5, "call": 3, "llm": 5}.get(o[0])
+            e = list(o[base:]) if base is not None else []           # engine index, if any
+            if e and e[0] != 0:
+                cands.append(list(o[:base]) + [0])
             if o[0] == "met":
                 if o[1] != "bare":
-                    cands.append(["met", "bare", o[2], o[3], o[4]])
+                    cands.append(["met", "bare", o[2], o[3], o[4]] + e)
                 if o[4] is not None:
-                    cands.append(["met", o[1], o[2], o[3], None])
+                    cands.append(["met", o[1], o[2], o[3], None] + e)
             elif o[0] == "call" and o[2] != "none":
-                cands.append(["call", o[1], "none"])
+                cands.append(["call", o[1], "none"] + e)
             elif o[0] == "llm":
                 for c in range(len(o[1])):                       # drop a round
-                    cands.append(["llm", o[1][:c] + o[1][c + 1:], o[2], o[3], o[4]])
+                    cands.append(["llm", o[1][:c] + o[1][c + 1:], o[2], o[3], o[4]] + e)
                 for c, r in enumerate(o[1]):                     # drop a call inside a round
                     if isinstance(r, list) and len(r) > 1:
                         for d in range(len(r)):
-                            cands.append(["llm", o[1][:c] + [r[:d] + r[d + 1:]] + o[1][c + 1:], o[2], o[3], o[4]])
+                            cands.append(["llm", o[1][:c] + [r[:d] + r[d + 1:]] + o[1][c + 1:], o[2], o[3], o[4]] + e)
                 if o[2] != "final":
-                    cands.append(["llm", o[1], "final", o[3], o[4]])
+                    cands.append(["llm", o[1], "final", o[3], o[4]] + e)
                 for small in (1, 2, 3):
                     if small < o[3]:
-                        cands.append(["llm", o[1], o[2], small, o[4]])
+                        cands.append(["llm", o[1], o[2], small, o[4]] + e)
                 if not o[4]:
-                    cands.append(["llm", o[1], o[2], o[3], True])
+                    cands.append(["llm", o[1], o[2], o[3], True] + e)
             for new in cands:
                 yield _with(plan, path, j, new)
 
@@ -349,7 +378,12 @@ class _Provider:
     name = "sim"
 
     def __init__(self, k, rounds, tail, bound):
-        self.k, self.rounds, self.tail, self.bound = k, rounds, tail, bound
+        self.k = k
+        self.load(rounds, tail, bound)
+
+    def load(self, rounds, tail, bound):
+        """A new conversation on the same client: fresh script, fresh counters."""
+        self.rounds, self.tail, self.bound = rounds, tail, bound
         self.cwt = 0
         self.plain = 0
         self.asked = []          # (round, call id, tool name) actually handed to the engine
@@ -418,13 +452,27 @@ class _World:
     def __init__(self, k, cfg):
         self.k = k
         self.cfg = cfg
-        self.a_ctor = None if cfg["allowed"] is None else frozenset(_dec(cfg["allowed"]))
-        self.a_now = self.a_ctor
+        ceilings = [cfg["allowed"]] + ([cfg.get("allowed2")] if cfg.get("engines", 1) == 2 else [])
+        self.ceil_ctor = [None if a is None else frozenset(_dec(a)) for a in ceilings]
+        self.ceil_now = list(self.ceil_ctor)
+        self.cur = 0            # index of the engine the request in progress was issued against (the harness knows it)
         self.changed = False
         self.tools = {}         # name -> {"req", "id", "attr", "cont", "flipped"}  (latest registration built)
         self.ran = {}           # registration id -> number of times the body ran
         self.nreg = 0
         self.requested_forbidden = 0
+
+    @property
+    def a_ctor(self):
+        return self.ceil_ctor[self.cur]
+
+    @property
+    def a_now(self):
+        return self.ceil_now[self.cur]
+
+    @a_now.setter
+    def a_now(self, v):
+        self.ceil_now[self.cur] = v
 
     def forbidden(self, req):
         for a in (self.a_ctor, self.a_now):
@@ -441,7 +489,9 @@ class _World:
             k.ev("tool_body", [name, rid, site])
             if self.forbidden(req):
                 k.violation("least_privilege", "forbidden_tool_ran", site,
-                            f"tool {name!r} requires {_show(req)}, ceiling {_show(self.a_now)}"
+                            f"tool {name!r} requires {_show(req)}, "
+                            + (f"request issued against engine {self.cur + 1} of {len(self.ceil_now)} with " if len(self.ceil_now) > 1 else "")
+                            + f"ceiling {_show(self.a_now)}"
                             + (f" (constructed with {_show(self.a_ctor)})" if self.changed else ""))
             else:
                 k.probe("allowed_tool_ran")
@@ -508,10 +558,30 @@ class _World:
         return True
 
     def engine(self, pre, tr=None):
-        ctor_tools = [self.tool_object(spec) for spec in pre]
-        return call(Mitochondria, max_ros=self.cfg["max_ros"], tools=ctor_tools,
+        self.ctor_tools = [self.tool_object(spec) for spec in pre]
+        return call(Mitochondria, max_ros=self.cfg["max_ros"], tools=self.ctor_tools,
                     allowed_capabilities=None if self.cfg["allowed"] is None else set(_dec(self.cfg["allowed"])),
                     silent=quiet(), tracer=tr)
+
+    def second_engine(self, tr=None):
+        """Same toolbox (the very same tool objects, hence the same names), another ceiling."""
+        a2 = self.cfg.get("allowed2")
+        return call(Mitochondria, max_ros=self.cfg["max_ros"], tools=list(self.ctor_tools),
+                    allowed_capabilities=None if a2 is None else set(_dec(a2)), silent=quiet(), tracer=tr)
+
+    def register_all(self, engines, spec, tr=None):
+        """A (re-)registration goes to every engine: one shared toolbox, tool names stay identical."""
+        name, body, caps, attr, via = self.build(spec)
+        out = None
+        if via == "function":
+            for m in engines:
+                out = call(m.register_function, name, body, "sim tool " + name, caps or None, tracer=tr)
+            return out
+        tool = (SimpleTool(name=name, description="sim tool " + name, func=body, required_capabilities=caps)
+                if via == "simple" else _CustomTool(name, body, attr, caps))
+        for m in engines:
+            out = call(m.engulf_tool, tool, tracer=tr)
+        return out
 
 
 def run(plan, k):
@@ -522,6 +592,25 @@ def run(plan, k):
     if "tasks" in plan:
         return _run_threads(plan, k)
     return _run_seq(plan, k)
+
+
+def forbidden_somewhere(engines, w, rounds):
+    """Does this provider script ask for a tool that the current engine forbids and another engine allows?"""
+    names = {n for r in rounds if isinstance(r, list) for n in r}
+    cur = w.cur
+    try:
+        for n in sorted(names):
+            t = w.tools.get(n)
+            if t is None or not w.forbidden(t["req"]):
+                continue
+            for other in range(len(engines)):
+                w.cur = other
+                if other != cur and not w.forbidden(t["req"]):
+                    return True
+            w.cur = cur
+        return False
+    finally:
+        w.cur = cur
 
 
 # --------------------------------------------------------------------------- sequential family
@@ -537,15 +626,28 @@ def _run_seq(plan, k):
         if not out.ok:
             k.ev("ctor", out.brief())
             return
-        m = out.value
+        engines = [out.value]
+        if cfg.get("engines", 1) == 2:
+            out = w.second_engine(tr)
+            if not out.ok:
+                k.ev("ctor2", out.brief())
+                return
+            engines.append(out.value)
+            k.probe("two_engines_one_nucleus")
+        prov = _Provider(k, [], "final", 0)
+        nuc = Nucleus(provider=prov)          # one LLM client for the whole history, whichever engine it is handed
+        last_llm_engine = [None]
 
         for op in plan["ops"]:
             kind = op[0]
+            base = {"met": 5, "call": 3, "llm": 5}.get(kind)
+            w.cur = op[base] if (base is not None and len(op) > base and op[base] < len(engines)) else 0
+            m = engines[w.cur]
             if kind == "reg":
-                out = w.register(m, op[1:], tr)
+                out = w.register_all(engines, op[1:], tr)
                 k.ev("reg", [op[1], out.brief()[0]])
                 continue
-            if kind == "allow":
+            if kind == "allow":            # always the first engine
                 new = None if op[1] is None else set(_dec(op[1]))
                 if (op[2] == "inplace" and new is not None and w.a_now is not None
                         and isinstance(m.allowed_capabilities, set)):
@@ -564,7 +666,7 @@ def _run_seq(plan, k):
                 continue
 
             if kind == "met":
-                _, form, name, other, pw = op
+                _, form, name, other, pw = op[:5]
                 tmpl, top = FORMS[form]
                 expr = tmpl.format(n=name, N=name.upper(), o=other)
                 fb = note_request(name, "metabolize") if top else False
@@ -588,7 +690,7 @@ def _run_seq(plan, k):
                 continue
 
             if kind == "call":
-                _, name, style = op
+                _, name, style = op[:3]
                 fb = note_request(name, "call")
                 before = total_ran(name)
                 out = call(m.execute_tool_call, ToolCall(id="direct", name=name,
@@ -618,16 +720,19 @@ def _run_seq(plan, k):
                 m.execute_tool_call = spy
                 try:
                     if kind == "llm":
-                        _, rounds, tail, max_iter, auto = op
-                        prov = _Provider(k, rounds, tail, max_iter)
-                        nuc = Nucleus(provider=prov)
+                        _, rounds, tail, max_iter, auto = op[:5]
+                        prov.load(rounds, tail, max_iter)
+                        if last_llm_engine[0] not in (None, w.cur):
+                            k.probe("nucleus_switched_engine")
+                            if forbidden_somewhere(engines, w, rounds):
+                                k.probe("nucleus_switched_to_stricter_engine")
+                        last_llm_engine[0] = w.cur
                         out = call(nuc.transcribe_with_tools, "use the tools", m, None, max_iter, auto, tracer=tr)
                     else:
                         _, name, max_iter = op
-                        nuc = Nucleus(provider=MockProvider())
                         k.probe("mock_provider_loop")
-                        out = call(nuc.transcribe_with_tools, f"please run {name} for me", m, None, max_iter, True,
-                                   tracer=tr)
+                        out = call(Nucleus(provider=MockProvider()).transcribe_with_tools, f"please run {name} for me",
+                                   m, None, max_iter, True, tracer=tr)
                 finally:
                     m.__dict__.pop("execute_tool_call", None)
                 k.ev(kind, [out.brief()[0], [[s[0], s[1], s[2]] for s in seen]])
